@@ -12,6 +12,12 @@ use std::time::Instant;
 
 pub const VERIF: &str = "/verif";
 
+/// Where evidence / replays / run scratch go (default /verif; the sensitivity script
+/// redirects it so that runs against mutated copies never touch the real evidence).
+pub fn out_base() -> PathBuf {
+    PathBuf::from(std::env::var("VERIF_OUT_DIR").unwrap_or_else(|_| VERIF.to_string()))
+}
+
 /// What one case execution tells the driver.
 #[derive(Clone, Debug, Default)]
 pub struct CaseOut {
@@ -194,7 +200,7 @@ pub fn run_worker<E: Engine>(
             failure_persistence: None,
             rng_seed: rng_seed(seed, worker),
             rng_algorithm: RngAlgorithm::ChaCha,
-            max_shrink_iters: 1500,
+            max_shrink_iters: std::env::var("VERIF_MAX_SHRINK").ok().and_then(|s| s.parse().ok()).unwrap_or(1500),
             max_global_rejects: 1 << 30,
             max_local_rejects: 1 << 30,
             ..Config::default()
@@ -266,7 +272,7 @@ pub fn digest(s: &str) -> u64 {
 pub fn run_parent<E: Engine>(eng: &E, cfg: ParentCfg) -> i32 {
     let t0 = Instant::now();
     let exe = std::env::current_exe().expect("current exe");
-    let dir = PathBuf::from(VERIF).join("target").join("runs").join(format!("{}-{}-{}", cfg.engine_name, cfg.prop, cfg.tier));
+    let dir = out_base().join("target").join("runs").join(format!("{}-{}-{}", cfg.engine_name, cfg.prop, cfg.tier));
     let _ = std::fs::remove_dir_all(&dir);
     std::fs::create_dir_all(&dir).expect("run dir");
     let mut kids = Vec::new();
@@ -342,7 +348,7 @@ pub fn run_parent<E: Engine>(eng: &E, cfg: ParentCfg) -> i32 {
     if let Some(f) = failures.first() {
         // confirm by strict replay in a child process
         let enc = f["case"].as_str().unwrap_or("").to_string();
-        let rdir = PathBuf::from(VERIF).join("replays");
+        let rdir = out_base().join("replays");
         let _ = std::fs::create_dir_all(&rdir);
         let name = format!("{}-{:016x}.json", cfg.prop, digest(&enc));
         let rpath = rdir.join(&name);
@@ -437,7 +443,7 @@ pub fn run_parent<E: Engine>(eng: &E, cfg: ParentCfg) -> i32 {
 /// Evidence files may be written by several engines serving one property: merge by
 /// engine name under coverage.parts, keeping the required top-level keys as sums.
 pub fn write_evidence(prop: &str, ev: &Value) {
-    let dir = PathBuf::from(VERIF).join("evidence");
+    let dir = out_base().join("evidence");
     let _ = std::fs::create_dir_all(&dir);
     let path = dir.join(format!("{}.json", prop));
     let merge = std::env::var("VERIF_EVIDENCE_APPEND").ok().as_deref() == Some("1");
